@@ -35,7 +35,7 @@ Proof. exact api_file_perfile. Qed.
 Print Assumptions C10_api_file_perfile.
 
 (* 2. Same target, same configuration: Linter.lint and the command line return the same, cross-file findings
-      included — for a directory under every quirk vector, for a single file once the API finalizes. *)
+      included — for a directory and (since fix f7c62f4, read from the source) for a single file, under every quirk vector. *)
 Theorem C10_api_eq_cli_dir :
   forall V perfile rep_blocks rep_consts rep_st hard_excl ignored ign_path in_dir q fs d l,
   cli_run V perfile rep_blocks rep_consts rep_st hard_excl ignored ign_path in_dir q fs [] [(d, l)]
@@ -45,17 +45,16 @@ Print Assumptions C10_api_eq_cli_dir.
 
 Theorem C10_api_eq_cli_file :
   forall V perfile rep_blocks rep_consts rep_st hard_excl ignored ign_path in_dir q fs p c,
-  q_api_file_no_finalize q = false -> fs_get fs p = Some c ->
+  fs_get fs p = Some c ->
   cli_run V perfile rep_blocks rep_consts rep_st hard_excl ignored ign_path in_dir q fs [p] []
   = [api_run V perfile rep_blocks rep_consts rep_st hard_excl ignored ign_path in_dir q fs (TFile p)].
 Proof. exact api_eq_cli_file. Qed.
 Print Assumptions C10_api_eq_cli_file.
 
-(* 3. Several command-line targets (the files together, then each directory) are reported as independent runs
-      once the DRY storage is reset by finalize(): nothing of an earlier target is reported again. *)
+(* 3. Several command-line targets (the files together, then each directory) are reported as independent runs,
+      for every quirk vector (the DRY storage is reset by finalize() since fix 8b82489): nothing of an earlier target is reported again. *)
 Theorem C10_cli_targets_independent :
   forall V perfile rep_blocks rep_consts rep_st hard_excl ignored ign_path in_dir q fs files dirs,
-  q_dry_keeps_storage q = false -> q_ignore_parser_reused q = false ->
   cli_run V perfile rep_blocks rep_consts rep_st hard_excl ignored ign_path in_dir q fs files dirs
   = map (fresh V perfile rep_blocks rep_consts rep_st hard_excl ignored ign_path in_dir q fs) (cli_ops files dirs).
 Proof. exact cli_targets_independent. Qed.
